@@ -159,6 +159,54 @@ def run_case(case):
         want = nf if nf is not None else cfg["n"]
         if out["final"]["x"].shape[0] != want:
             viol.append({"mech": "C10/returned-size-wrong", "detail": f"{where}: returned {out['final']['x'].shape[0]} rows, expected {want}"})
+        # looking at the record does not change it: after every diagnostic view of the history (plots, text, a save to a file)
+        # and of the returned samples, the stored rows must still be the rows judged above
+        run = out.get("run")
+        if run is not None and run.history is not None and g.random() < 0.6:
+            from ..harness import pop_to_np, rm_tmp, tmpfile
+
+            h_obj = run.history
+            views = []
+
+            def frozen(p_):
+                d_ = pop_to_np(p_)
+                return {k_: (None if v_ is None else np.array(v_, copy=True)) for k_, v_ in d_.items()}
+
+            before_h = [frozen(p_) for p_ in h_obj.sample_history]  # private copies: the arrays above may share memory with the record
+            before_f = frozen(run.samples)
+            for name in sorted(n_ for n_ in dir(h_obj) if n_.startswith("plot")):
+                try:
+                    getattr(h_obj, name)()
+                    views.append(name)
+                except Exception:  # noqa: BLE001  (a view that cannot be drawn in this environment is not what is judged here)
+                    counters["history_views_that_raised"] += 1
+            try:
+                import matplotlib.pyplot as plt
+
+                plt.close("all")
+            except Exception:  # noqa: BLE001
+                pass
+            path = tmpfile("view.h5")
+            try:
+                import h5py
+
+                with h5py.File(path, "w") as f:
+                    h_obj.save(f)
+                views.append("save")
+            except Exception:  # noqa: BLE001
+                counters["history_views_that_raised"] += 1
+            finally:
+                rm_tmp(path)
+            str(run.samples)
+            counters["histories_viewed_then_rejudged"] += 1
+            after = [pop_to_np(p_) for p_ in h_obj.sample_history]
+            for k, (p0, p1) in enumerate(zip(before_h, after)):
+                if any(not np.array_equal(np.asarray(p0[f_]), np.asarray(p1[f_]), equal_nan=True) for f_ in ("x", "ll", "lp", "lq")):
+                    viol.append({"mech": "C10/stored-rows-changed-by-looking-at-the-history", "detail": f"{where}: history[{k}] differs after {views}"})
+                    break
+            fin1 = pop_to_np(run.samples)
+            if any(not np.array_equal(np.asarray(before_f[f_]), np.asarray(fin1[f_]), equal_nan=True) for f_ in ("x", "ll", "lp")):
+                viol.append({"mech": "C10/stored-rows-changed-by-looking-at-the-history", "detail": f"{where}: returned samples differ after {views}"})
         if "resumed" in out:
             r2 = out["resumed"]["run"]
             for k, p in enumerate(r2.pops):
